@@ -510,9 +510,9 @@ func (rl *Shell) transposeWords() {
 	rl.selection.Visual(false)
 	transposeWith, wbpos, wepos, _ := rl.selection.Pop()
 
-	// We might be on the first word of the line,
-	// in which case we don't do anything.
-	if tbpos == 0 {
+	// We might be on the first word of the line, or have
+	// no word at all, in which case we don't do anything.
+	if tbpos <= 0 || wbpos < 0 {
 		rl.cursor.Set(startPos)
 		return
 	}
